@@ -12,7 +12,7 @@
 #include "queue.h"
 #include "stream.h"
 
-static ssize_t flushPosition(MPT_STRUCT(stream) *stream, const uint8_t *data, size_t len)
+static ssize_t flushPosition(MPT_STRUCT(stream) *stream, const uint8_t *data, size_t len, const uint8_t *prev)
 {
 	const uint8_t *pos;
 	int flush;
@@ -31,15 +31,18 @@ static ssize_t flushPosition(MPT_STRUCT(stream) *stream, const uint8_t *data, si
 	}
 	if (flush == MPT_ENUM(NewlineNet)) {
 		size_t curr, max;
-		if ((data[0] == '\n') && (max = stream->_wd.data.len)) {
-			uint8_t last;
-			mpt_queue_get(&stream->_wd.data, max - 1, 1, &last);
-			
+		if (data[0] == '\n') {
+			uint8_t last = 0;
+			/* preceding data of same write may have left buffer already */
+			if (prev) {
+				last = *prev;
+			}
+			else if ((max = stream->_wd.data.len)) {
+				mpt_queue_get(&stream->_wd.data, max - 1, 1, &last);
+			}
 			if (last == '\r') {
 				return 1;
 			}
-			--len;
-			++data;
 		}
 		curr = 0;
 		while ((pos = memchr(data, '\r', len))) {
@@ -74,6 +77,7 @@ static ssize_t flushPosition(MPT_STRUCT(stream) *stream, const uint8_t *data, si
  */
 extern size_t mpt_stream_write(MPT_STRUCT(stream) *stream, size_t count, const void *data, size_t part)
 {
+	const uint8_t *first = data;
 	int flags, file;
 	size_t tchunk = 0;
 	
@@ -124,7 +128,7 @@ extern size_t mpt_stream_write(MPT_STRUCT(stream) *stream, size_t count, const v
 				}
 				continue;
 			}
-			while (curr && (take = flushPosition(stream, data, curr))) {
+			while (curr && (take = flushPosition(stream, data, curr, (const uint8_t *) data != first ? ((const uint8_t *) data) - 1 : 0))) {
 				mpt_qpush(&stream->_wd.data, take, data);
 				stream->_wd._state.done = stream->_wd.data.len;
 				data = ((char *) data) + take;
